@@ -98,6 +98,8 @@ def compact_ops(ops):
         elif op["k"] == "ctor":
             out.append(f"{op['c']}/{(op.get('lc') or 'request_scoped')[0].upper()}{'+cin' if op.get('cl') == 'clone_if_necessary' else ''}"
                        + (f"!{op['eh']}" if op.get("eh") else ""))
+        elif "c" not in op:
+            out.append(f"{op['k']}:{op.get('module')}")
         else:
             out.append(op["c"] + (f"!{op['eh']}" if op.get("eh") else ""))
     return "|".join(out)
